@@ -109,6 +109,7 @@ class Engine:
                                 if not isinstance(n, (ast.Lambda,)))
         self.param_values = {}
         self.decide_calls = 0
+        self.assumed_used = set()
 
     # ------------------------------------------------------------------------------------
     def _index_loops(self):
@@ -186,6 +187,10 @@ class Engine:
             st.env[g] = fresh_value(parse_sort(srt), g)
         self.param_values = {n: st.env[n] for n in list(names) + list(c.get('ghost_params', {}))
                              if not isinstance(st.env[n], (VUnknown, VConst))}
+        from .npmodel import DTYPE_AXIOMS, wellformed_facts
+        st.pc.extend(DTYPE_AXIOMS)
+        for n in list(st.env):
+            st.pc.extend(wellformed_facts(st.env[n]))
         for r in c.get('requires', []):
             self.assume_spec(r, st)
         st.old = dict(st.env)
@@ -601,6 +606,14 @@ class Engine:
                 return
             raise Unsupported(f'unpack of {val!r}')
         if isinstance(tgt, ast.Attribute):
+            if tgt.attr == 'writeable' and isinstance(tgt.value, ast.Attribute) and tgt.value.attr == 'flags':
+                arr = self.ev(tgt.value.value, st)
+                if isinstance(arr, VRec) and 'writeable' in arr.fields:
+                    fs = dict(arr.fields)
+                    fs['writeable'] = VBool(self.truth(val, st))
+                    self.assign(st, tgt.value.value, VRec(arr.name, fs, arr.fsorts), None)
+                    return
+                raise Unsupported('flags.writeable store on unmodelled array')
             base = self.ev(tgt.value, st)
             if isinstance(base, VRec) and tgt.attr in base.fields:
                 fs = dict(base.fields)
@@ -882,10 +895,16 @@ class Engine:
                 st.tainted = True
                 return z3.Bool(fresh_name('unk'))
             return z3.BoolVal(False)
+        m = self.menv.identical_model(a, b)
+        if m is not None:
+            return m
         if isinstance(a, VConst) and isinstance(b, VConst):
             return z3.BoolVal(a.py == b.py)
         if isinstance(a, VBool) and isinstance(b, VBool):
             return a.t == b.t
+        if isinstance(a, VRec) and isinstance(b, VRec) and a.name == b.name == 'arr':
+            from .sorts import equal as _eq
+            return _eq(a, b)        # ghost identity: arrays are compared by all modelled attributes
         if isinstance(a, VU) and isinstance(b, VU) and a.sort == b.sort:
             return a.t == b.t
         if isinstance(a, VUnknown) or isinstance(b, VUnknown):
@@ -911,6 +930,9 @@ class Engine:
         if isinstance(base, VRec):
             if a in base.fields:
                 return base.fields[a]
+            v = self.menv.attr_model(base, a, self, st)
+            if v is not None:
+                return v
             raise Unsupported(f'record {base.name} has no modelled field {a}')
         if isinstance(base, VOpt) and not st.spec:
             self.oblige(st, z3.Not(base.isnone), f'no-AttributeError-None@L{node.lineno}', 'safety', node)
